@@ -22,7 +22,7 @@ func init() {
 			{"C15/validate-all-defaults", ruleC15ValidateAll},
 		},
 		Explanation: "Decides the shape of default application: every mutation of the instance is dominated by the not-required outcome of the membership test in the required set, for the same property; a default (or an empty container for nested defaults) is installed only on the missing outcome of one validity test of the looked-up value, and on the present outcome the value written back is the present value passed through the recursive call; every inserted value is a fresh per-application decode of the Default of the subschema of that very property, or a fresh container created under the has-nested-defaults predicate of that subschema; the predicate and the applier descend through the same schema fields and the predicate recurses; default validation walks the full schema tree, evaluates each decoded default against the schema that declares it, can be skipped by nothing but the absence of a default, runs under exactly the ValidateDefaults option and its error is returned. It does NOT observe idempotence, nor behaviour for typed (non-any) element types.",
-		NotDecided: []string{"idempotence as an observed law", "behaviour for typed (non-`any`) element types", "dynamic references during default validation (documented as unsupported)"},
+		NotDecided:  []string{"idempotence as an observed law", "behaviour for typed (non-`any`) element types", "dynamic references during default validation (documented as unsupported)"},
 	})
 }
 
